@@ -78,10 +78,9 @@ theorem degreeHeightFixed_of_height (h : Nat) (hh : h < 6930000) :
 
 theorem degreeHeightWith_of_height (fixed : Bool) (h : Nat) (hh : h < 6930000) :
     degreeHeightWith fixed (h / 1260000) (h % 210000) (h % 2016) = .ok h := by
-  unfold degreeHeightWith
   cases fixed
-  · exact degreeHeight_of_height h hh
-  · exact degreeHeightFixed_of_height h hh
+  · rw [show degreeHeightWith false = degreeHeight from rfl]; exact degreeHeight_of_height h hh
+  · rw [show degreeHeightWith true = degreeHeightFixed from rfl]; exact degreeHeightFixed_of_height h hh
 
 theorem dispatch_degree (d : Degree) : dispatch (printDegree d) = .degree := by
   have h1 := decDigits_all_digits d.hour
